@@ -2,10 +2,9 @@
 # run all 20 checks of one tier in parallel and print one line each: all_checks.sh [quick|thorough]
 T=${1:-quick}
 D=$(mktemp -d)
-for i in 01 02 03 04 05 06 07 08 09 10 11 12 13 14 15 16 17 18 19 20; do
-  ( /verif/check C$i --tier $T > $D/C$i.log 2>&1; echo "C$i rc=$? $(tail -1 $D/C$i.log)" > $D/C$i.res ) &
-done
-wait
+# quick: all 20 at once; thorough: three at a time (each runs its variants in up to 12 worker processes)
+P=20; [ "$T" = "thorough" ] && P=3
+printf '%s\n' 01 02 03 04 05 06 07 08 09 10 11 12 13 14 15 16 17 18 19 20 | xargs -P $P -I{} sh -c "/verif/check C{} --tier $T > $D/C{}.log 2>&1; echo \"C{} rc=\$? \$(tail -1 $D/C{}.log)\" > $D/C{}.res"
 cat $D/*.res
 grep -h "^VIOLATION\|^ANALYSIS-ERROR" $D/*.log | head -20
 rm -rf $D
